@@ -911,7 +911,11 @@ func MinRenterAllowance(hp HostPrices, collateral types.Currency) types.Currency
 		return types.ZeroCurrency
 	}
 	maxCollateralBytes := collateral.Div(hp.Collateral)
-	return hp.StoragePrice.Mul(maxCollateralBytes)
+	allowance, overflow := hp.StoragePrice.MulWithOverflow(maxCollateralBytes)
+	if overflow {
+		return types.MaxCurrency
+	}
+	return allowance
 }
 
 // MaxHostCollateral returns the maximum amount of collateral a host can justify
@@ -921,7 +925,11 @@ func MaxHostCollateral(hp HostPrices, allowance types.Currency) types.Currency {
 		return types.MaxCurrency
 	}
 	maxCollateralBytes := allowance.Div(hp.StoragePrice)
-	return hp.Collateral.Mul(maxCollateralBytes)
+	collateral, overflow := hp.Collateral.MulWithOverflow(maxCollateralBytes)
+	if overflow {
+		return types.MaxCurrency
+	}
+	return collateral
 }
 
 // RenewContract creates a contract renewal for the renew RPC
